@@ -45,11 +45,11 @@ func TestVerifC02(t *testing.T) {
 		os2.prefix = []string{"commit:1:c1", "deliver:1>2:c1@0/t1.1.1", "down:1", "commit:1:c3"}
 		os2.maxOutages = 1
 		if !r.Thorough() { // quick: commits, next-term / same installs, trailing delivery, up
-			os2.maxCrashes, os2.maxInstalls, os2.evRepair, os2.evCrashReplace = 0, 1, false, false
+			os2.maxCrashes, os2.maxInstalls, os2.evRepair, os2.evCrashReplace = 0, 2, false, false
 		}
 		seeded := vwRun(r, "replication-world/C02/messagedb-deposed-tail", os2, st, 4, ev.Pick(r, 0, 1),
 			mnote+"; initial state = after "+fmt.Sprint(os2.prefix)+" (deposed leader cut off with an unreplicated tail of the length of a barrier)")
-		r.Guard("messagedb-world-states", mdb.States >= 50 && seeded.States >= 100, "%d + %d states explored over MessageDB-backed stores", mdb.States, seeded.States)
+		r.Guard("messagedb-world-states", mdb.States >= 50 && seeded.States >= 50, "%d + %d states explored over MessageDB-backed stores", mdb.States, seeded.States)
 		r.Guard("messagedb-sequenced-fast-path", st.saAtFrontier.Load() >= 10 && st.saAtFrontierDivergentTail.Load() >= 1,
 			"%d ServerAllocatedMessageIDs proposals reached a follower exactly at its LEO, %d of them a follower whose equal-length tail is not the proposal's predecessor",
 			st.saAtFrontier.Load(), st.saAtFrontierDivergentTail.Load())
